@@ -1,7 +1,540 @@
 //! Fixed-point conversion (C18) and FIBEX (C11, C12).
+use crate::genfibex::*;
 use crate::ops::Outcome;
 use crate::wire::*;
+use dlt_core::dlt::*;
+use dlt_core::fibex::{extract_metadata, gather_fibex_data, FibexConfig, FibexMetadata, FrameMetadata, PduMetadata};
+use std::collections::BTreeMap;
+use std::panic::{catch_unwind, AssertUnwindSafe};
+use std::sync::atomic::{AtomicUsize, Ordering};
 
-pub fn run_case5(_prop: &str, op: u32, _toks: &[Tok]) -> Outcome {
-    panic!("unknown op {}", op)
+fn guarded<T>(f: impl FnOnce() -> T) -> Option<T> {
+    catch_unwind(AssertUnwindSafe(f)).ok()
+}
+
+// =============================================================================== C18
+fn value_as_int(v: &Value) -> Option<i128> {
+    Some(match v {
+        Value::U8(x) => *x as i128,
+        Value::U16(x) => *x as i128,
+        Value::U32(x) => *x as i128,
+        Value::U64(x) => *x as i128,
+        Value::I8(x) => *x as i128,
+        Value::I16(x) => *x as i128,
+        Value::I32(x) => *x as i128,
+        Value::I64(x) => *x as i128,
+        _ => return None,
+    })
+}
+
+/// 42 REAL
+fn op_real(toks: &[Tok], prop: &str) -> Outcome {
+    let mut r = R::new(toks);
+    let a = r.arg();
+    let res = guarded(|| a.to_real_value());
+    let mut w = W::new();
+    match &res {
+        None => w.n(1),
+        Some(None) => {
+            w.n(0);
+            w.n(0)
+        }
+        Some(Some(v)) => {
+            w.n(0);
+            w.n(1);
+            w.n(*v as u128)
+        }
+    }
+    let mut oracle = vec![];
+    if prop == "C18" {
+        let fixed_kind = matches!(a.type_info.kind, TypeInfoKind::SignedFixedPoint(_) | TypeInfoKind::UnsignedFixedPoint(_));
+        let int = value_as_int(&a.value);
+        let applicable = fixed_kind && a.fixed_point.is_some() && int.is_some();
+        match &res {
+            None => oracle.push(("no_panic".into(), "to_real_value panicked".into())),
+            Some(got) => {
+                if !applicable && got.is_some() {
+                    oracle.push(("none_unless_fixed_point".into(), format!("{:?} for an argument that is not fixed point with data and an integer value", got)));
+                }
+            }
+        }
+        if applicable {
+            let fp = a.fixed_point.as_ref().unwrap();
+            let off: i128 = match fp.offset {
+                FixedPointValue::I32(v) => v as i128,
+                FixedPointValue::I64(v) => v as i128,
+            };
+            // physical value times quantization in double precision, truncated toward zero
+            let v = int.unwrap();
+            let vf = if v >= 0 { v as u64 as f64 } else { v as i64 as f64 };
+            let p = vf * (fp.quantization as f64);
+            if p.is_finite() && p >= 0.0 && p < 3.0e19 {
+                let t = p.trunc() as u128 as i128;
+                let sum = t + off;
+                if sum >= 0 && sum < (1i128 << 63) {
+                    if res != Some(Some(sum as u64)) {
+                        oracle.push(("value_is_q_times_v_plus_offset".into(), format!("expected {} (t = {}, offset = {}), got {:?}", sum, t, off, res)));
+                    }
+                }
+            }
+        }
+    }
+    Outcome { result: w.0, oracle }
+}
+
+// =============================================================================== FIBEX
+type Frames = BTreeMap<Vec<u8>, Vec<Tok>>;
+type Keyed = BTreeMap<(Vec<u8>, Vec<u8>, Vec<u8>), Vec<Tok>>;
+
+fn w_opt_s(w: &mut W, o: &Option<String>) {
+    match o {
+        Some(s) => {
+            w.n(1);
+            w.b(s.as_bytes())
+        }
+        None => w.n(0),
+    }
+}
+fn w_pdu(w: &mut W, p: &PduMetadata) {
+    w_opt_s(w, &p.description);
+    w.n(p.signal_types.len() as u128);
+    for t in &p.signal_types {
+        w.ti(t);
+    }
+}
+fn frame_toks(f: &FrameMetadata) -> Vec<Tok> {
+    let mut w = W::new();
+    w.b(f.short_name.as_bytes());
+    w_opt_s(&mut w, &f.application_id);
+    w_opt_s(&mut w, &f.context_id);
+    w_opt_s(&mut w, &f.message_type);
+    w_opt_s(&mut w, &f.message_info);
+    w.n(f.pdus.len() as u128);
+    for p in &f.pdus {
+        w_pdu(&mut w, p);
+    }
+    w.0
+}
+fn maps_of(m: &FibexMetadata) -> (Frames, Keyed) {
+    let mut a = Frames::new();
+    for (k, f) in &m.frame_map {
+        a.insert(k.as_bytes().to_vec(), frame_toks(f));
+    }
+    let mut b = Keyed::new();
+    for (k, f) in &m.frame_map_with_key {
+        b.insert((k.context_id.as_bytes().to_vec(), k.app_id.as_bytes().to_vec(), k.frame_id.as_bytes().to_vec()), frame_toks(f));
+    }
+    (a, b)
+}
+fn w_maps(w: &mut W, m: &(Frames, Keyed)) {
+    w.n(m.0.len() as u128);
+    for (k, f) in &m.0 {
+        w.b(k);
+        w.0.extend(f.iter().cloned());
+    }
+    w.n(m.1.len() as u128);
+    for ((c, a, i), f) in &m.1 {
+        w.b(c);
+        w.b(a);
+        w.b(i);
+        w.0.extend(f.iter().cloned());
+    }
+}
+
+// ---- the independent meaning of a layout, written from the property sentence ----
+fn plain(kind: TypeInfoKind, coding: StringCoding) -> TypeInfo {
+    TypeInfo { kind, coding, has_variable_info: false, has_trace_info: false }
+}
+fn standard_signal(name: &str) -> Option<Option<TypeInfo>> {
+    use TypeInfoKind::*;
+    use TypeLength::*;
+    let a = StringCoding::ASCII;
+    Some(Some(match name {
+        "S_BOOL" => plain(Bool, a),
+        "S_SINT8" => plain(Signed(BitLength8), a),
+        "S_UINT8" => plain(Unsigned(BitLength8), a),
+        "S_SINT16" => plain(Signed(BitLength16), a),
+        "S_UINT16" => plain(Unsigned(BitLength16), a),
+        "S_SINT32" => plain(Signed(BitLength32), a),
+        "S_UINT32" => plain(Unsigned(BitLength32), a),
+        "S_SINT64" => plain(Signed(BitLength64), a),
+        "S_UINT64" => plain(Unsigned(BitLength64), a),
+        "S_FLOA16" => return Some(None),
+        "S_FLOA32" => plain(Float(FloatWidth::Width32), a),
+        "S_FLOA64" => plain(Float(FloatWidth::Width64), a),
+        "S_STRG_ASCII" => plain(StringType, a),
+        "S_STRG_UTF8" => plain(StringType, StringCoding::UTF8),
+        "S_RAWD" | "S_RAW" => plain(Raw, a),
+        _ => return None,
+    }))
+}
+fn base_type(name: &str) -> Option<TypeInfo> {
+    use TypeInfoKind::*;
+    use TypeLength::*;
+    let a = StringCoding::ASCII;
+    Some(match name {
+        "A_UINT8" => plain(Unsigned(BitLength8), a),
+        "A_INT8" | "A_SINT8" => plain(Signed(BitLength8), a),
+        "A_UINT16" => plain(Unsigned(BitLength16), a),
+        "A_INT16" | "A_SINT16" => plain(Signed(BitLength16), a),
+        "A_UINT32" => plain(Unsigned(BitLength32), a),
+        "A_INT32" | "A_SINT32" => plain(Signed(BitLength32), a),
+        "A_UINT64" => plain(Unsigned(BitLength64), a),
+        "A_INT64" | "A_SINT64" => plain(Signed(BitLength64), a),
+        "A_FLOAT32" => plain(Float(FloatWidth::Width32), a),
+        "A_FLOAT64" => plain(Float(FloatWidth::Width64), a),
+        "A_ASCIISTRING" => plain(StringType, a),
+        "A_UNICODE2STRING" => plain(StringType, StringCoding::UTF8),
+        _ => return None,
+    })
+}
+
+/// None = loading must fail (a frame references a PDU nobody defines)
+fn denote(layout: &Layout) -> Option<(Frames, Keyed)> {
+    let els: Vec<&Element> = layout.iter().flatten().collect();
+    // signals / codings: the last definition of an id counts
+    let mut signals: BTreeMap<&str, &str> = BTreeMap::new();
+    let mut codings: BTreeMap<&str, &str> = BTreeMap::new();
+    for e in &els {
+        match e {
+            Element::Signal(i, c) => {
+                signals.insert(i, c);
+            }
+            Element::Coding(i, b) => {
+                codings.insert(i, b);
+            }
+            _ => {}
+        }
+    }
+    let signal_type = |r: &str| -> Option<TypeInfo> {
+        match standard_signal(r) {
+            Some(t) => t,
+            None => signals.get(r).and_then(|c| codings.get(c)).and_then(|b| base_type(b)),
+        }
+    };
+    // PDUs: the first definition of an id wins
+    let mut pdus: BTreeMap<&str, Vec<Tok>> = BTreeMap::new();
+    for e in &els {
+        if let Element::Pdu(p) = e {
+            if pdus.contains_key(p.id.as_str()) {
+                continue;
+            }
+            let mut inst = p.signals.clone();
+            inst.sort_by_key(|x| x.0); // stable
+            let tys: Vec<TypeInfo> = inst.iter().filter_map(|(_, r)| signal_type(r)).collect();
+            let mut w = W::new();
+            w_opt_s(&mut w, &p.desc);
+            w.n(tys.len() as u128);
+            for t in &tys {
+                w.ti(t);
+            }
+            pdus.insert(&p.id, w.0);
+        }
+    }
+    let mut frames = Frames::new();
+    let mut keyed = Keyed::new();
+    for e in &els {
+        if let Element::Frame(f) = e {
+            let mut inst = f.pdus.clone();
+            inst.sort_by_key(|x| x.0);
+            let mut w = W::new();
+            w.b(f.short_name.as_bytes());
+            w_opt_s(&mut w, &f.app);
+            w_opt_s(&mut w, &f.ctx);
+            w_opt_s(&mut w, &f.mtype);
+            w_opt_s(&mut w, &f.minfo);
+            w.n(inst.len() as u128);
+            for (_, r) in &inst {
+                match pdus.get(r.as_str()) {
+                    Some(t) => w.0.extend(t.iter().cloned()),
+                    None => return None,
+                }
+            }
+            if let (Some(c), Some(a)) = (&f.ctx, &f.app) {
+                keyed.entry((c.as_bytes().to_vec(), a.as_bytes().to_vec(), f.id.as_bytes().to_vec())).or_insert_with(|| w.0.clone());
+            }
+            frames.entry(f.id.as_bytes().to_vec()).or_insert(w.0);
+        }
+    }
+    Some((frames, keyed))
+}
+
+/// is the layout inside the domain where the canonical rendering says what it means
+/// (Spec/FibexSpec.v element_ok: element texts non-empty, numbers fit usize)
+fn layout_ok(layout: &Layout) -> bool {
+    let ne = |s: &String| !s.is_empty();
+    let one = |o: &Option<String>| o.as_ref().map(|s| !s.is_empty()).unwrap_or(true);
+    layout.iter().flatten().all(|e| match e {
+        Element::Pdu(p) => ne(&p.short_name) && one(&p.desc),
+        Element::Frame(f) => ne(&f.short_name) && one(&f.app) && one(&f.ctx) && one(&f.mtype) && one(&f.minfo),
+        _ => true,
+    })
+}
+
+enum Loaded {
+    Model(FibexMetadata),
+    Refused,
+    Panicked,
+    TimedOut,
+}
+static TIMEOUTS: AtomicUsize = AtomicUsize::new(0);
+static COUNTER: AtomicUsize = AtomicUsize::new(0);
+
+fn work_dir() -> std::path::PathBuf {
+    let base = std::env::var("DLTV_WORK").unwrap_or_else(|_| "/verif/build/work/fibex".to_string());
+    let d = std::path::PathBuf::from(base).join(format!("p{}", std::process::id()));
+    let _ = std::fs::create_dir_all(&d);
+    d
+}
+
+fn load_files(files: &[Option<Vec<u8>>]) -> Loaded {
+    if TIMEOUTS.load(Ordering::SeqCst) >= 6 {
+        return Loaded::TimedOut; // enough spinning threads already: do not start more
+    }
+    let dir = work_dir();
+    let k = COUNTER.fetch_add(1, Ordering::SeqCst);
+    let mut paths = vec![];
+    for (i, f) in files.iter().enumerate() {
+        let p = dir.join(format!("c{}_{}.xml", k, i));
+        match f {
+            Some(b) => {
+                std::fs::write(&p, b).expect("write fibex file");
+            }
+            None => {
+                let _ = std::fs::remove_file(&p);
+            }
+        }
+        paths.push(p);
+    }
+    let cfg_paths: Vec<String> = paths.iter().map(|p| p.to_string_lossy().to_string()).collect();
+    let (tx, rx) = std::sync::mpsc::channel();
+    let handle = std::thread::Builder::new()
+        .stack_size(16 << 20)
+        .spawn(move || {
+            let r = catch_unwind(AssertUnwindSafe(|| gather_fibex_data(FibexConfig { fibex_file_paths: cfg_paths })));
+            let _ = tx.send(r);
+        })
+        .expect("spawn");
+    let res = match rx.recv_timeout(std::time::Duration::from_secs(4)) {
+        Ok(Ok(Some(m))) => Loaded::Model(m),
+        Ok(Ok(None)) => Loaded::Refused,
+        Ok(Err(_)) => Loaded::Panicked,
+        Err(_) => {
+            TIMEOUTS.fetch_add(1, Ordering::SeqCst);
+            Loaded::TimedOut
+        }
+    };
+    if !matches!(res, Loaded::TimedOut) {
+        let _ = handle.join();
+        for p in &paths {
+            let _ = std::fs::remove_file(p);
+        }
+    }
+    res
+}
+
+struct FibexCase {
+    files: Vec<Option<Vec<u8>>>,
+    events_current: bool,
+    layout: Option<Layout>,
+}
+/// the recorded event list of one file, token for token (FibexWire.r_xevent layout)
+fn take_events(r: &mut R) -> Vec<Tok> {
+    let start = r.i;
+    let n = r.n();
+    for _ in 0..n {
+        match r.n() {
+            1 | 2 => {
+                r.b();
+                let na = r.n();
+                for _ in 0..na {
+                    if r.n() == 1 {
+                        r.b();
+                        if r.n() == 1 {
+                            r.b();
+                        }
+                    }
+                }
+            }
+            3 => {
+                r.b();
+            }
+            4 => {
+                if r.n() == 1 {
+                    r.b();
+                }
+            }
+            _ => {}
+        }
+    }
+    r.t[start..r.i].to_vec()
+}
+fn read_fibex_case(r: &mut R) -> FibexCase {
+    let n = r.n();
+    let mut files = vec![];
+    let mut events_current = true;
+    for _ in 0..n {
+        if r.n() == 0 {
+            files.push(None);
+            continue;
+        }
+        let xml = r.b();
+        // the events recorded in the case must be what quick-xml yields for this text NOW
+        let mut w = W::new();
+        dump_events(&xml, &mut w);
+        let recorded = take_events(r);
+        if recorded != w.0 {
+            events_current = false;
+        }
+        files.push(Some(xml));
+    }
+    let _style = r.n();
+    let layout = if r.n() == 0 {
+        None
+    } else {
+        let nf = r.n();
+        Some(
+            (0..nf)
+                .map(|_| {
+                    let ne = r.n();
+                    (0..ne).map(|_| r_element(r)).collect()
+                })
+                .collect(),
+        )
+    };
+    FibexCase { files, events_current, layout }
+}
+
+fn w_loaded(w: &mut W, l: &Loaded) {
+    match l {
+        Loaded::Refused => w.n(0),
+        Loaded::Model(m) => {
+            w.n(1);
+            w_maps(w, &maps_of(m));
+        }
+        Loaded::Panicked => w.n(2),
+        Loaded::TimedOut => w.n(3),
+    }
+}
+
+fn robustness_oracle(prop: &str, l: &Loaded, oracle: &mut Vec<(String, String)>) {
+    if prop == "C12" || prop == "C11" {
+        match l {
+            Loaded::Panicked => oracle.push(("no_panic".into(), "gather_fibex_data panicked".into())),
+            Loaded::TimedOut => oracle.push(("terminates".into(), "gather_fibex_data did not return within 4 s".into())),
+            _ => {}
+        }
+    }
+}
+
+/// 50 LOAD
+fn op_fibex(toks: &[Tok], prop: &str) -> Outcome {
+    let mut r = R::new(toks);
+    let c = read_fibex_case(&mut r);
+    let mut oracle = vec![];
+    let mut w = W::new();
+    if !c.events_current {
+        oracle.push(("events_current".into(), "the XML events recorded in the case are not what quick-xml yields for the text".into()));
+    }
+    let l = load_files(&c.files);
+    w_loaded(&mut w, &l);
+    robustness_oracle(prop, &l, &mut oracle);
+    match &c.layout {
+        None => w.n(0),
+        Some(layout) => {
+            w.n(1);
+            w.n(1); // canonical rendering flag: decided on the model side
+            let want = denote(layout);
+            match &want {
+                None => w.n(0),
+                Some(m) => {
+                    w.n(1);
+                    w_maps(&mut w, m);
+                }
+            }
+            if prop == "C11" && layout_ok(layout) {
+                let got = match &l {
+                    Loaded::Model(m) => Some(Some(maps_of(m))),
+                    Loaded::Refused => Some(None),
+                    _ => None,
+                };
+                if let Some(got) = got {
+                    if got != want {
+                        let what = match (&got, &want) {
+                            (None, Some(_)) => "loading failed but the documents define a model".to_string(),
+                            (Some(_), None) => "a model was returned although a frame references an undefined PDU".to_string(),
+                            _ => "the returned model differs from the model written in the files".to_string(),
+                        };
+                        oracle.push(("model_is_what_the_files_say".into(), what));
+                    }
+                }
+            }
+        }
+    }
+    Outcome { result: w.0, oracle }
+}
+
+/// 51 LOOKUP
+fn op_fibex_lookup(toks: &[Tok], prop: &str) -> Outcome {
+    let mut r = R::new(toks);
+    let c = read_fibex_case(&mut r);
+    let id = r.n() as u32;
+    let eh = if r.n() == 0 { None } else { Some((r.s(), r.s())) }; // (context, app)
+    let mut oracle = vec![];
+    let mut w = W::new();
+    if !c.events_current {
+        oracle.push(("events_current".into(), "the XML events recorded in the case are not what quick-xml yields for the text".into()));
+    }
+    let l = load_files(&c.files);
+    robustness_oracle(prop, &l, &mut oracle);
+    match &l {
+        Loaded::Model(m) => {
+            w.n(1);
+            let x = eh.as_ref().map(|(c, a)| ExtendedHeader {
+                verbose: false,
+                argument_count: 0,
+                message_type: MessageType::Log(LogLevel::Info),
+                application_id: a.clone(),
+                context_id: c.clone(),
+            });
+            let got = guarded(|| extract_metadata(m, id, x.as_ref()).map(frame_toks));
+            match &got {
+                None => w.n(9),
+                Some(None) => w.n(0),
+                Some(Some(f)) => {
+                    w.n(1);
+                    w.0.extend(f.iter().cloned());
+                }
+            }
+            if prop == "C11" {
+                if let (Some(layout), Some(got)) = (&c.layout, &got) {
+                    if layout_ok(layout) {
+                        if let Some((frames, keyed)) = denote(layout) {
+                            let key = format!("ID_{}", id).into_bytes();
+                            let want = match &eh {
+                                Some((c, a)) => keyed.get(&(c.as_bytes().to_vec(), a.as_bytes().to_vec(), key)).cloned(),
+                                None => frames.get(&key).cloned(),
+                            };
+                            if *got != want {
+                                oracle.push(("lookup_returns_that_frame".into(), format!("extract_metadata(id {}, ext {:?}) is not the frame stored under these ids", id, eh)));
+                            }
+                        }
+                    }
+                }
+            }
+        }
+        Loaded::Refused => w.n(0),
+        Loaded::Panicked => w.n(2),
+        Loaded::TimedOut => w.n(3),
+    }
+    Outcome { result: w.0, oracle }
+}
+
+pub fn run_case5(prop: &str, op: u32, toks: &[Tok]) -> Outcome {
+    match op {
+        42 => op_real(toks, prop),
+        50 => op_fibex(toks, prop),
+        51 => op_fibex_lookup(toks, prop),
+        _ => panic!("unknown op {}", op),
+    }
 }
